@@ -156,6 +156,18 @@ fn run_history(h: &mut Ev) {
             }
         }
     }
+    // an object lost to a panic of the code under test (a constructor or a consuming call that panicked) cannot serve later events: that is an
+    // observation ("x": not executable), not a script error - the panic itself is recorded at the earlier event and judged there
+    let mut panicked = false;
+    for e in evs.iter_mut() {
+        let o = e.get("out").cloned().unwrap_or(Value::Null);
+        let k = o.get("k").and_then(|v| v.as_str()).unwrap_or("");
+        if k == "p" {
+            panicked = true;
+        } else if k == "bad" && panicked && o.get("msg").and_then(|v| v.as_str()).map_or(false, |m| m.contains("dead slot")) {
+            e.as_object_mut().unwrap().insert("out".into(), json!({"k": "x", "v": []}));
+        }
+    }
     h.insert("ev".into(), Value::Array(evs));
 }
 
